@@ -59,7 +59,7 @@ const (
 	allocBig  = 2 << 20 // see gcPolicy
 	// calls that allocate more than allocBig are slow here (page faults): after this many of them (quick /
 	// thorough) the rest of the job is skipped and reported through CapHit
-	allocCapQuick, allocCapThorough = 4, 32
+	allocCapQuick, allocCapThorough = 3, 32
 	hangAfter = 30 * time.Second
 )
 
@@ -74,7 +74,7 @@ func gcPolicy(alloc uint64, beforeExit func()) {
 	if !gcOff && alloc <= allocBig {
 		return
 	}
-	if gcDirty += min(alloc, allocBig); !gcOff || gcDirty > 1<<30 {
+	if gcDirty += min(alloc, allocBig); !gcOff || gcDirty > 512<<20 {
 		beforeExit()
 		os.Exit(5)
 	}
@@ -370,10 +370,7 @@ func childMain() {
 	loadPrep(os.Getenv("C16_DIR"))
 	buildTargets(os.Getenv("C16_TIER") == "thorough")
 	cell := mapCell(os.Getenv("C16_CELL"))
-	allocCap := allocCapQuick
-	if os.Getenv("C16_TIER") == "thorough" {
-		allocCap = allocCapThorough
-	}
+	thoroughTier := os.Getenv("C16_TIER") == "thorough"
 	out := bufio.NewWriter(os.Stdout)
 	emit := func(l line) {
 		bs, _ := json.Marshal(l)
@@ -392,6 +389,13 @@ func childMain() {
 		if f == nil {
 			fmt.Fprintf(os.Stderr, "unknown family %s/%s\n", j.T, j.F)
 			os.Exit(4)
+		}
+		allocCap := allocCapQuick
+		if thoroughTier {
+			allocCap = allocCapThorough
+		}
+		if f.phase == 0 {
+			allocCap = 16 // 257 inputs only: go far enough to see the first allocation beyond the budget
 		}
 		r := &rmsg{Seq: j.Seq, Outcomes: map[string]int64{}, Groups: map[string]int64{}}
 		best := map[string]int{} // violation group -> length of the best input sent so far
@@ -750,11 +754,7 @@ func execJob(w *worker, j job) {
 		jobTime[j.T+" "+j.F] += time.Since(t0).Seconds()
 		aggMu.Unlock()
 	}()
-	defer func() { // a child without collector serves one job only
-		if w.gcOff = false; w.dirty {
-			w.stop()
-		}
-	}()
+	w.gcOff = w.dirty // a child without collector keeps serving jobs until it has produced 512 MiB of garbage
 	for lo < j.Hi {
 		jj := j
 		jj.Lo, jj.Big = lo, big
@@ -784,7 +784,7 @@ func execJob(w *worker, j job) {
 			for _, fl := range r.Flaky {
 				c.CapHit("non-reproducible panic, not reported: " + fl)
 			}
-			if r.Outcomes["alloc>budget"] > 0 && f.phase != 2 {
+			if (r.Outcomes["alloc>budget"] > 0 || r.Stopped > 0) && f.phase != 2 {
 				aggMu.Lock()
 				if flagged[j.T] == "" {
 					flagged[j.T] = "allocation beyond the budget in " + j.F
@@ -816,8 +816,8 @@ func execJob(w *worker, j job) {
 			continue
 		}
 		lo = ev.idx + 1
-		if ev.kind == "exit5" { // child replaced itself (gcPolicy)
-			w.gcOff = true
+		if ev.kind == "exit5" { // child replaced itself (gcPolicy): with collector -> without, and back after 512 MiB
+			w.gcOff = !wasDirty
 			continue
 		}
 		events++
@@ -939,7 +939,7 @@ func printSlowest() {
 		ks = append(ks, k)
 	}
 	sort.Slice(ks, func(a, b int) bool { return jobTime[ks[a]] > jobTime[ks[b]] })
-	for _, k := range ks[:min(12, len(ks))] {
+	for _, k := range ks[:min(30, len(ks))] {
 		fmt.Fprintf(os.Stderr, "  slow: %6.1fs %s\n", jobTime[k], k)
 	}
 }
